@@ -12,6 +12,7 @@
 -/
 import PopsModel.Driver.Util
 import PopsModel.Model.HostPred
+import PopsModel.Model.SuitList
 import PopsModel.Model.Treat
 import PopsModel.Model.Actions
 import PopsModel.Model.RunStep
@@ -124,8 +125,22 @@ def mapSuit (st : State) (f : Nat → Cell → Cell) : List Cell :=
       | none => cells
     else cells) st.cells
 
+/-- C18 through the host pool: the infected sum over the maintained suitable-cell list still equals
+    the sum of the infected raster (theorem `C18_sum_over_suitable_list`); judged only when it held
+    before the operation. -/
+def listSumVerdict (st : State) (o : Obs) : Option String :=
+  let infOf (cells : List Cell) : Nat → Int := fun k => (cells[k]!).i
+  let toIdx (suit : List (Int × Int)) : List Nat := suit.map fun (r, c) => idx st r c
+  let before := infectedOverList (infOf st.cells) (toIdx st.suit) == infectedOverRaster (infOf st.cells) st.cells.length
+  let l := infectedOverList (infOf o.cells) (toIdx o.suit)
+  let r := infectedOverRaster (infOf o.cells) o.cells.length
+  if before && l != r then some s!"PROPFAIL C18 infected_sum_over_suitable_cells list_sum={l} raster_sum={r} suitable={o.suit}" else none
+
 def finish (st : State) (o : Obs) (verdict : String) : State × String :=
-  ({ st with cells := o.cells, suit := o.suit }, verdict)
+  let v := match listSumVerdict st o with
+    | none => verdict
+    | some c18 => if verdict == "ok" then c18 else verdict ++ " ;; " ++ c18
+  ({ st with cells := o.cells, suit := o.suit }, v)
 
 def ratsFor (st : State) (toks : List String) : Option (List Rat) := do
   let l ← parseRats? toks
@@ -311,7 +326,10 @@ def handle (st : State) (cmd : String) (inp obsToks : List String) : State × St
         let bad := (List.zip st.soilCells cur).findSome? fun (prev, now) =>
           let aged := soilNext prev
           if now.any (· < 0) then some "PROPFAIL C02 nonneg soil_cohorts"
-          else if spreadTok == "0" && now != aged then some s!"PROPFAIL C04 soil_ageing previous={prev} now={now} expected={aged}"
+          else if spreadTok == "0" && now != aged then
+            some (s!"PROPFAIL C04 soil_ageing previous={prev} now={now} expected={aged}" ++
+              -- C09: soil ageing is the first action of every step when soils are active
+              (if now == prev then s!" ;; PROPFAIL C09 soil_ageing_not_performed previous={prev} now={now}" else ""))
           else if spreadTok == "1" && (List.zip now.dropLast aged.dropLast).any (fun (a, b) => a > b) then
             some s!"PROPFAIL C04 soil_ageing previous={prev} now={now} aged={aged}"
           else none
